@@ -455,6 +455,25 @@ func (st *State) finishSum(h *ssa.BasicBlock, li *loopInfo, cl *countedLoop, col
 			return false // bound is not loop invariant
 		}
 	}
+	// the closed form below assumes the loop runs nForm >= 0 times; when that is not provable the case
+	// "bound already passed: the loop does not run at all" is explored separately
+	if !st.ProveSimplified(nForm) && !st.noZeroTripFork {
+		skip := st.clone()
+		skip.Facts = append(skip.Facts, lin.Fact{F: nForm.Scale(-1).AddC(-1)})
+		skip.Trace = append(skip.Trace, "loop "+h.String()+" not entered")
+		for _, pe := range phis {
+			skip.vals[pe.phi] = pe.entry
+		}
+		if cl.cmpVal != ssa.Value(cl.phi) {
+			for _, pe := range phis {
+				if pe.phi == cl.phi && pe.entry.K == KInt {
+					skip.vals[cl.cmpVal] = IntVal(pe.entry.F.AddC(1))
+				}
+			}
+		}
+		run(skip, h.Succs[1-cl.bodyS], h)
+		st.Facts = append(st.Facts, lin.Fact{F: nForm})
+	}
 	loopKey := nForm.String()
 	// delta of an accumulator: identical on all paths -> c·N + Σ{rest}; else a guarded sum
 	exitVal := func(key string, entry lin.Form) lin.Form {
